@@ -166,6 +166,22 @@ fn cases(rng: &mut Rng, thorough: bool) -> Vec<Req> {
     for m in id_muts {
         v.push(get("p3", &format!("/path/{}/bob/true", m)));
     }
+    // values that read like serde's own error messages (error paths that classify a
+    // failure by the wording of its message must not be steered by the request)
+    const ECHO: &[&str] = &[
+        "missing%20field", "missing%20field%20%60id%60", "a%20missing%20field%20here", "missing%20field:%20id",
+        "unknown%20variant", "duplicate%20field%20%60id%60", "invalid%20type", "unknown%20field%20%60id%60",
+        "invalid%20length%200", "expected%20u32", "panicked", "internal%20error",
+    ];
+    for m in ECHO {
+        v.push(get("p3", &format!("/path/{}/bob/true", m)));
+        v.push(get("p3", &format!("/path/12/bob/{}", m)));
+        v.push(get("wild", &format!("/wild/{}/a/b", m)));
+        v.push(get("wild", &format!("/wild/x/{}", m)));
+        v.push(get("q6", &format!("/query?n={}&s=x&b=true&e=Red&i=-3&c=z", m)));
+        v.push(get("q6", &format!("/query?n=5&s=x&b=true&e={}&i=-3&c=z", m)));
+        v.push(get("q6", &format!("/query?n=5&s=x&b=true&e=Red&i=-3&c=z&{}=1", m)));
+    }
     for m in ["True", "TRUE", "1", "0", "yes", "t", "true%20", "truee", "tru", "false", "%74rue", "null"] {
         v.push(get("p3", &format!("/path/12/bob/{}", m)));
     }
@@ -661,6 +677,7 @@ fn main() {
         start_server(make_api(), ctx.clone(), ServerOpts { default_request_body_max_bytes: BODY_CAP, ..Default::default() })
     });
     let addr = server.local_addr();
+    let _ = PLAIN_ADDR.set(addr);
     let mut id = fid;
     for rq in &list {
         let (port, got, delta, followup) = run_case(addr, &ctx, rq);
@@ -679,6 +696,11 @@ fn main() {
         let a = h2_batch(&rt, addr, std::slice::from_ref(rq)).pop().unwrap();
         let delta = ctx.count(rq.ep) - before;
         let mut got = digest(a.resp);
+        // K10 (a schedule inside multer, see extract_common::mp_transient) is C09's business:
+        // here the answer of the resend stands for the request
+        if let Some(again) = mp_transient(rq, &mut got) {
+            got = again;
+        }
         h2_normalise_echo(&mut got);
         id += 1;
         out.line(&format!("{} => {}", rq.line_input("bad2", id), got.line_output(a.port, &delta.to_string(), "1")));
